@@ -183,7 +183,7 @@ def run(tier):
         jobs = []   # (name, cfg text, expectation, timeout)
         # the design (both deviations off): every property holds, per signal group
         jobs.append(('lm_design', cfg_text(lm, s2, 1, 2, False, False, PROPS), 'holds', 900))
-        jobs.append(('tr', cfg_text(['traces'], s3, 2, 2, True, True, PROPS, faults=2, retries=2), 'holds', 900))
+        jobs.append(('tr', cfg_text(['traces'], s2 if quick else s3, 1 if quick else 2, 2, True, True, PROPS, faults=2, retries=2), 'holds', 900))
         jobs.append(('pf', cfg_text(['profiles'], s3, 2, 3, True, True, PROPS, faults=2, retries=2), 'holds', 900))
         # each deviation alone: TLC finds the counterexample (exported with the view, replayed on the real code below)
         jobs.append(('lm_csbi', cfg_text(lm, s2, 1, 2, True, False, 'AckedReadable RetryIdempotentEnough', export=True), 'cache-set-before-insert', 900))
@@ -238,7 +238,7 @@ def run(tier):
             vlib.tlc_cleanup(sim)
         if not behs:
             raise vlib.Infra('TLC wrote no behaviours')
-        hist = replay(binp, sd, 'sim', model3, behs, shards=2 if quick else 6)
+        hist = replay(binp, sd, 'sim', model3, behs, shards=3 if quick else 6)
         # the counterexamples TLC found for each deviation, on the real code
         model2 = {'slots_per_day': 1, 'keys': [1, 2], 'slots': s2, 'signals': lm}
         cexres = {}
@@ -282,9 +282,16 @@ def run(tier):
         trans += tst['generated']
         # ------------------------------------------------------------------ violations observed on the real code
         seen = {}
-        for src, o in [('history', hist)] + [('cex:' + c, o) for c, o in cexres.items()] + [('recorded', rec)]:
+        legend = {'Push': '[signal, items (key = stream/series/trace/profile series k<key>, t = time slot; slot t lies on day t div slots_per_day), '
+                          'tables whose INSERT fails, body has a malformed tail, the client never sees the answer]',
+                  'Retry': '[signal, items, tables whose INSERT fails]: the same items sent again', 'CacheClear': 'the 30-minute reset of the (day, fingerprint) cache',
+                  'Rollover': 'later pushes may carry timestamps of the next day', 'Query': '[endpoint, key, [from slot, to slot]]',
+                  'driver': 'cd /verif/harness && go build -tags verif -o /tmp/x02 ./cmd/x02 && TZ=UTC /tmp/x02 history -in <{slots_per_day, keys, slots, signals, behaviours: [[{action: Init}, steps...]]}> -out r.json'}
+        # (the minimal counterexamples TLC found come first: their replay is the example kept for a signature)
+        for src, o in [('cex:' + c, o) for c, o in cexres.items()] + [('history', hist), ('recorded', rec)]:
             for v in o['violations'] or []:
                 v['source'] = src
+                v['legend'] = legend
                 if v['signature'] not in seen:
                     seen[v['signature']] = v
                 else:
